@@ -4,9 +4,9 @@ use crate::support::*;
 use educe::Educe;
 use core::cmp::Ordering;
 #[derive(Educe)]
-#[educe(PartialEq, Eq)]
-pub struct T { builder: A<0>, #[educe(PartialEq(ignore = true))] _0: A<1> }
-pub fn values() -> Vec<T> { vec![T { builder: A(0), _0: A(0) }, T { builder: A(0), _0: A(1) }, T { builder: A(0), _0: A(7) }, T { builder: A(1), _0: A(0) }, T { builder: A(1), _0: A(1) }, T { builder: A(1), _0: A(7) }, T { builder: A(7), _0: A(0) }, T { builder: A(7), _0: A(1) }, T { builder: A(7), _0: A(7) }] }
-pub fn show(x: &T) -> String { #[allow(unused_variables)] match x { T { builder: p0, _0: p1 } => format!("T({},{})", sv(p0), sv(p1)) } }
-pub fn o_eq(a: &T, b: &T) -> bool { match (a, b) { (T { builder: a0, _0: a1 }, T { builder: b0, _0: b1 }) => (a0 == b0) } }
+#[educe(PartialEq)]
+pub enum T { None, Zed { #[educe(PartialEq = false)] b: A<0>, #[educe(PartialEq(method("m_eq")))] c: A<1>, size: A<2> } }
+pub fn values() -> Vec<T> { vec![T::None, T::Zed { b: A(1), c: A(1), size: A(1) }, T::Zed { b: A(0), c: A(7), size: A(1) }, T::Zed { b: A(0), c: A(0), size: A(1) }, T::Zed { b: A(1), c: A(0), size: A(0) }, T::Zed { b: A(0), c: A(0), size: A(0) }, T::Zed { b: A(1), c: A(7), size: A(0) }, T::Zed { b: A(7), c: A(7), size: A(0) }, T::Zed { b: A(1), c: A(0), size: A(1) }, T::Zed { b: A(0), c: A(0), size: A(7) }, T::Zed { b: A(0), c: A(7), size: A(0) }, T::Zed { b: A(7), c: A(0), size: A(1) }, T::Zed { b: A(0), c: A(1), size: A(7) }, T::Zed { b: A(7), c: A(0), size: A(0) }, T::Zed { b: A(7), c: A(1), size: A(0) }, T::Zed { b: A(0), c: A(1), size: A(1) }, T::Zed { b: A(1), c: A(1), size: A(0) }, T::Zed { b: A(7), c: A(1), size: A(1) }, T::Zed { b: A(7), c: A(7), size: A(1) }, T::Zed { b: A(0), c: A(1), size: A(0) }, T::Zed { b: A(1), c: A(7), size: A(7) }, T::Zed { b: A(1), c: A(7), size: A(1) }, T::Zed { b: A(1), c: A(1), size: A(7) }, T::Zed { b: A(1), c: A(0), size: A(7) }, T::Zed { b: A(0), c: A(7), size: A(7) }] }
+pub fn show(x: &T) -> String { #[allow(unused_variables)] match x { T::None => format!("None()"), T::Zed { b: p0, c: p1, size: p2 } => format!("Zed({},{},{})", sv(p0), sv(p1), sv(p2)) } }
+pub fn o_eq(a: &T, b: &T) -> bool { match (a, b) { (T::None, T::None) => true, (T::Zed { b: a0, c: a1, size: a2 }, T::Zed { b: b0, c: b1, size: b2 }) => m_eq(a1, b1) && (a2 == b2), _ => false } }
 pub fn run(out: &mut Out) { let vs = values(); for a in &vs { for b in &vs { let e = o_eq(a, b); out.check((a == b) == e, "eq_2", "eq", || format!("{} == {} expected {}", show(a), show(b), e)); out.check((a != b) == !e, "eq_2", "ne", || format!("{} != {} expected {}", show(a), show(b), !e)); } } }
